@@ -103,6 +103,40 @@ func (s *State) assume(f string) {
 	}
 }
 
+// assumeG records an assumption that comes from a grouped clause: only obligations of the same group see it.
+func (s *State) assumeG(group, f string) {
+	if group == "" {
+		s.assume(f)
+		return
+	}
+	if f != "true" && f != "" {
+		s.pc = append(s.pc, ";grp="+group+";"+f)
+	}
+}
+
+// pcEntry splits a path-condition entry into its group ("" for ordinary entries) and formula.
+func pcEntry(p string) (group, f string) {
+	if strings.HasPrefix(p, ";grp=") {
+		rest := p[5:]
+		if i := strings.Index(rest, ";"); i >= 0 {
+			return rest[:i], rest[i+1:]
+		}
+	}
+	return "", p
+}
+
+// visiblePC: the assumptions an obligation of the given group may use.
+func visiblePC(pc []string, group string) []string {
+	out := make([]string, 0, len(pc))
+	for _, p := range pc {
+		g, f := pcEntry(p)
+		if g == "" || g == group || (g == "+" && group != "") {
+			out = append(out, f)
+		}
+	}
+	return out
+}
+
 type Oblig struct {
 	Name   string
 	Fn     string
@@ -120,6 +154,7 @@ type Oblig struct {
 	Detail  string
 	Bytes   int
 	Model   string
+	Group   string
 	Vacuity bool // a query that is expected to be sat (reachability witness)
 }
 
@@ -127,6 +162,7 @@ type Undecided struct{ Fn, Reason string }
 
 // X verifies one function.
 type X struct {
+	lastGroup string // group of the clause evaluated last as a goal (consumed by emit)
 	V        *Verifier
 	fn       *ssa.Function
 	key      string
@@ -207,12 +243,14 @@ func (x *X) emit(s *State, kind, name string, labels []string, goal string, clau
 		}
 	}
 	pc := append([]string{}, s.pc...)
+	grp := x.lastGroup
+	x.lastGroup = ""
 	for i, g := range goals {
 		nm := full
 		if len(goals) > 1 {
 			nm = fmt.Sprintf("%s/c%d", full, i+1)
 		}
-		o := &Oblig{Name: nm, Fn: x.key, Kind: kind, Labels: labels, Goal: g, PC: pc, Clause: clause}
+		o := &Oblig{Name: nm, Fn: x.key, Kind: kind, Labels: labels, Goal: g, PC: visiblePC(pc, grp), Clause: clause, Group: grp}
 		o.Decls = x.decls[:len(x.decls):len(x.decls)]
 		x.obligs = append(x.obligs, o)
 	}
@@ -1066,7 +1104,7 @@ func (x *X) enterBlock(s *State) bool {
 		x.havocLoop(s, b)
 		for _, c := range invs {
 			if c.Kind == "invariant" {
-				s.assume(x.evalClause(s, c, evalCtx{loopHeader: b, assuming: true}))
+				s.assumeG(c.Group, x.evalClause(s, c, evalCtx{loopHeader: b, assuming: true}))
 			}
 		}
 	} else if len(s.frames) > 1 && isLoopHeader(b) {
@@ -1400,6 +1438,13 @@ func (x *X) step(s *State, in ssa.Instruction) bool {
 		s.assume(c)
 		x.gotoBlock(s, b.Succs[0])
 		s2.assume(sNot(c))
+		// leaving a counting loop: not (i < n) together with the known i <= n gives i = n; stating the equality
+		// lets the solvers identify sum(.., i) with sum(.., n) by congruence
+		if strings.HasPrefix(c, "(< ") {
+			if parts := splitTop(c[3 : len(c)-1]); len(parts) == 2 && s2.knowsDeep("(<= "+parts[0]+" "+parts[1]+")") {
+				s2.assume("(= " + parts[0] + " " + parts[1] + ")")
+			}
+		}
 		x.gotoBlock(s2, b.Succs[1])
 		x.exec(s)
 		x.exec(s2)
@@ -1812,7 +1857,7 @@ func (x *X) verify() (res *VerifyResult) {
 	}
 	x.entry.pc = append([]string{}, s.pc...)
 	// vacuity witness: the precondition must be satisfiable
-	o := &Oblig{Name: x.key + "#vacuity.requires-satisfiable", Fn: x.key, Kind: "vacuity", Goal: "false", PC: append([]string{}, s.pc...), Vacuity: true}
+	o := &Oblig{Name: x.key + "#vacuity.requires-satisfiable", Fn: x.key, Kind: "vacuity", Goal: "false", PC: visiblePC(s.pc, ""), Vacuity: true}
 	o.Decls = x.decls[:len(x.decls):len(x.decls)]
 	x.obligs = append(x.obligs, o)
 	x.exec(s)
@@ -1849,6 +1894,13 @@ func (x *X) checkEnsures(s *State, res []Val) {
 			name = fmt.Sprintf("ensures%d", k)
 		}
 		x.emit(s, "ensures", fmt.Sprintf("%s@b%d", name, fr.block.Index), c.Labels, g, c.Text)
+		// a postcondition established at this return may serve as a lemma for the later grouped ones (it is checked
+		// on its own above, so nothing is taken for granted); ungrouped obligations never see these entries
+		if c.Group == "" {
+			s.assumeG("+", g)
+		} else {
+			s.assumeG(c.Group, g)
+		}
 	}
 	x.checkFrame(s)
 }
@@ -1866,6 +1918,31 @@ func (s *State) knows(f string) bool {
 					return true
 				}
 			}
+		}
+	}
+	return false
+}
+
+// knowsDeep: f is a conjunct (at any nesting depth of "and") of some path-condition entry.
+func (s *State) knowsDeep(f string) bool {
+	var in func(p string) bool
+	in = func(p string) bool {
+		if p == f {
+			return true
+		}
+		if strings.HasPrefix(p, "(and ") && strings.Contains(p, f) {
+			for _, c := range splitTop(p[5 : len(p)-1]) {
+				if in(c) {
+					return true
+				}
+			}
+		}
+		return false
+	}
+	for _, p := range s.pc {
+		_, q := pcEntry(p)
+		if in(q) {
+			return true
 		}
 	}
 	return false
